@@ -428,6 +428,42 @@ func main() {
 				c.Nontrivial(1)
 			}
 		}})
+	// (1e) a signature for one message must not verify for another one, whatever the lengths and wherever they differ
+	wl := []int{1, 2, 31, 32, 33, 64, 135, 136, 137, 255, 256, 257, 258, 271, 272, 273, 287, 288, 289, 290, 511, 512, 513, 1000, 4096}
+	ck.Domains = append(ck.Domains, &drv.Domain{Name: "message-window", Size: int64(len(wl)) * 6, Chunk: 6,
+		Desc: "for 25 message lengths (around every hashing block boundary and buffer-size candidate: 32, 136, 256, 272, 288, 512 ...): the signature of m against m with its LAST byte changed, its first byte changed, one byte appended, one byte removed, and against the same prefix with a different length: library <=> specification",
+		Run: func(c *drv.Ctx, lo, hi int64) {
+			for i := lo; i < hi; i++ {
+				c.At(i)
+				L := wl[i/6]
+				k := getKeys(dilscope.Seed(1, c.Seed))
+				m := seeds.Bytes(L, fmt.Sprint("window", L), c.Seed)
+				r := k.ref.Sign(m, refdil.Skip{})
+				var m2 []byte
+				what := ""
+				switch i % 6 {
+				case 0:
+					m2, what = m, "same message"
+				case 1:
+					m2 = append([]byte(nil), m...)
+					m2[L-1] ^= 1
+					what = "last byte changed"
+				case 2:
+					m2 = append([]byte(nil), m...)
+					m2[0] ^= 0x80
+					what = "first byte changed"
+				case 3:
+					m2, what = append(append([]byte(nil), m...), 0), "one zero byte appended"
+				case 4:
+					m2, what = m[:L-1], "last byte removed"
+				case 5:
+					m2 = append(append([]byte(nil), m...), seeds.Bytes(17, "tail", c.Seed)...)
+					what = "17 bytes appended"
+				}
+				compare(c, i, "message-window", fmt.Sprintf("len %d: %s", L, what), k, k.ref.PK, m2, r.Sig, i%6 != 0)
+				c.Nontrivial(1)
+			}
+		}})
 	// (2) bit flips
 	flips := func(name, tier string, nk int) {
 		per := int64(dilithium.CryptoBytes*8 + dilithium.CryptoPublicKeyBytes*8 + 3)
